@@ -92,6 +92,7 @@ import (
 	"net"
 	"net/http"
 	"net/http/httptest"
+	"os"
 	"runtime"
 	"runtime/debug"
 	"sort"
@@ -704,6 +705,9 @@ func c16Stack() string {
 func c16Blocked() string {
 	buf := make([]byte, 1<<20)
 	n := runtime.Stack(buf, true)
+	if os.Getenv("C16_DEBUG") != "" {
+		fmt.Fprintf(os.Stderr, "%s\n", buf[:n])
+	}
 	var out []string
 	seen := map[string]int{}
 	for _, g := range strings.Split(string(buf[:n]), "\n\n") {
@@ -1791,10 +1795,24 @@ func c16Exec(r *sim.Run, sci interface{}) {
 						c2s.SegSizes = append(c2s.SegSizes, s)
 					}
 				}
+				// latency is per segment and segments are delivered one after
+				// the other: with tiny segments or a tiny window a long latency
+				// would make the link slower than the broker's 200 ms resend rate
+				// (a congestion collapse that has nothing to do with the property)
+				lim := int64(1 << 40)
+				if len(c2s.SegSizes) > 0 || (sc.BufSize > 0 && sc.BufSize <= 4096) {
+					lim = 5000
+				}
 				for _, d := range c.DelayC2SUs {
+					if d > lim {
+						d = lim
+					}
 					c2s.Delays = append(c2s.Delays, c16Us(d))
 				}
 				for _, d := range c.DelayS2CUs {
+					if d > lim {
+						d = lim
+					}
 					s2c.Delays = append(s2c.Delays, c16Us(d))
 				}
 			}
